@@ -39,10 +39,10 @@ IR_RUNS.update({
                          ("MC", "hier_edit", 10, 400), ("MC", "hier_walk", 16, 1500)]},
     "C07": {"quick": [("MC", "clone", 2), ("MC", "clone_top", 1), ("MC", "clone_edit", 0)],
             "thorough": [("MC", "clone", 4), ("MC", "clone", 10, 60), ("MC", "clone_top", 3), ("MC", "clone_edit", 1)]},
-    "C06": {"quick": [("MC", "vlog_read", 2), ("MC", "vlog_read", 10, 14), ("MC", "vlog_decl", 0), ("MC", "vlog_assign", 1), ("MC", "vlog_alias", 2), ("FILES", "vlog_file", 6000)],
-            "thorough": [("MC", "vlog_read", 3), ("MC", "vlog_read", 12, 300), ("MC", "vlog_decl", 0), ("MC", "vlog_assign", 3), ("MC", "vlog_alias", 4), ("FILES", "vlog_file", 30000)]},
-    "C04": {"quick": [("MC", "vlog_rt", 2), ("MC", "vlog_rt", 10, 14), ("MC", "vlog_decl", 0), ("MC", "vlog_unused", 0), ("MC", "vlog_assign", 1), ("MC", "vlog_alias", 3), ("FILES", "vlog_rt", 6000)],
-            "thorough": [("MC", "vlog_rt", 3), ("MC", "vlog_rt", 12, 300), ("MC", "vlog_decl", 0), ("MC", "vlog_unused", 0), ("MC", "vlog_assign", 3), ("MC", "vlog_alias", 4), ("FILES", "vlog_rt", 30000)]},
+    "C06": {"quick": [("MC", "vlog_read", 2), ("MC", "vlog_read", 10, 14), ("MC", "vlog_decl", 0), ("MC", "vlog_assign", 1), ("MC", "vlog_alias", 2), ("MC", "vlog_shared", 0), ("FILES", "vlog_file", 6000)],
+            "thorough": [("MC", "vlog_read", 3), ("MC", "vlog_read", 12, 300), ("MC", "vlog_decl", 0), ("MC", "vlog_assign", 3), ("MC", "vlog_alias", 4), ("MC", "vlog_shared", 0), ("FILES", "vlog_file", 30000)]},
+    "C04": {"quick": [("MC", "vlog_rt", 2), ("MC", "vlog_rt", 10, 14), ("MC", "vlog_decl", 0), ("MC", "vlog_unused", 0), ("MC", "vlog_assign", 1), ("MC", "vlog_alias", 3), ("MC", "vlog_shared", 0), ("FILES", "vlog_rt", 6000)],
+            "thorough": [("MC", "vlog_rt", 3), ("MC", "vlog_rt", 12, 300), ("MC", "vlog_decl", 0), ("MC", "vlog_unused", 0), ("MC", "vlog_assign", 3), ("MC", "vlog_alias", 4), ("MC", "vlog_shared", 0), ("FILES", "vlog_rt", 30000)]},
     "C15": {"quick": [("MC", "c15_edif", 0), ("MC", "c15_vlog", 0), ("MC", "c15_eblif", 0)],
             "thorough": [("MC", "c15_edif", 0), ("MC", "c15_vlog", 0), ("MC", "c15_eblif", 0)]},
     "C16": {"quick": [("MC", "c16_edif_arr", 0), ("MC", "c16_eblif_noname", 1), ("MC", "c16_eblif_nolib", 1), ("MC", "c16_edif", 2), ("MC", "c16_edif3", 2), ("MC", "c16_vlog", 1), ("MC", "c16_eblif", 2)],
